@@ -42,6 +42,16 @@ Theorem C18_one_frame_per_level : forall ms b, forallb plain ms = true ->
 Proof. exact one_frame_per_level. Qed.
 Print Assumptions C18_one_frame_per_level.
 
+(* the code as found: an instance that went through qcore.prepare_for_reraise at another site keeps
+   that site's traceback; the frame of the task that raised it is lost *)
+Theorem C18_prepared_instance_as_found_loses_level : forall i k,
+  let e := accept_error_as_found
+             (pushes [FInt I_cog; FInt I_continue]
+                     (push (FTask i) (pushes (rev (helper_frames k 1%Z)) prepared_exn))) in
+  pr e = Prepared [PREP_SITE] true.
+Proof. exact prepared_instance_as_found_loses_level. Qed.
+Print Assumptions C18_prepared_instance_as_found_loses_level.
+
 (* (c) asynq stack *)
 Theorem C18_creator_chain : forall t,
   traceback t = map tk_name (ancestors t) /\
